@@ -67,6 +67,8 @@ struct World {
 	int          retx_loss = 0, retx_timer = 0;
 	// dial world: REQ dials an ipc listener run by the harness
 	bool         dial = false;
+	bool         lipc = false;
+	int          junk = 0; // round 7: REQ listens on ipc:// (a real accept loop) instead of socket://
 	int          lfd  = -1;
 	std::string  path;
 	int          rmax = 20;       // NNG_OPT_RECONNMAXT
@@ -224,6 +226,15 @@ exec_c12(const vcase *vc)
 		H_OK(nng_dial(W.s, ("ipc://" + W.path).c_str(), NULL, NNG_FLAG_NONBLOCK));
 		vs_settle();
 		vr_tag("dial_world");
+	} else if (vc->nops > 1 && strcmp(vc->ops[1].name, "listenipc") == 0) {
+		char pb[96];
+		snprintf(pb, sizeof pb, "/tmp/verif-c12l-%d", (int) getpid());
+		unlink(pb);
+		W.path = pb;
+		W.lipc = true;
+		H_OK(nng_listener_create(&W.l, W.s, ("ipc://" + W.path).c_str()));
+		H_OK(nng_listener_start(W.l, 0));
+		vr_tag("listen_ipc_world");
 	} else {
 		H_OK(nng_listener_create(&W.l, W.s, "socket://"));
 		H_OK(nng_listener_start(W.l, 0));
@@ -269,10 +280,20 @@ exec_c12(const vcase *vc)
 					continue; // a dialer owns one pipe at a time / nothing is knocking
 				W.redial_due = 0;
 				W.redials++;
+			} else if (W.lipc) {
+				if (rp_connect_ipc(&W.peer[k], W.path.c_str()) != 0)
+					continue;
 			} else
 				H_OK(rp_attach_socket(&W.peer[k], W.l));
+			if (W.lipc && W.junk > 0) {
+				// (the accept loop backs off for 100 ms after a failed negotiation: give it that time)
+				vs_sleep(170);
+				vs_settle();
+			}
 			uint16_t pp = 0;
 			int      hr = rp_handshake(&W.peer[k], SP_REP, &pp);
+			if (W.lipc)
+				VR_CHECK(hr == 0 && pp == SP_REQ, "C12:replier-not-accepted", "a replier connected to the REQ socket's ipc listener but the connection was never taken up (%d junk connection(s) before it)", W.junk);
 			VR_CHECK(hr == 0 && pp == SP_REQ, "harness:handshake", "handshake %d %x", hr, pp);
 			vs_settle();
 			W.up[k]       = true;
@@ -312,6 +333,21 @@ exec_c12(const vcase *vc)
 				}
 				C.last_peer = -1;
 			}
+		} else if (n == "junk") { // a connection that is not a replier reaches the REQ socket's listener: junk bytes, or nothing, then it is gone
+			if (!W.lipc)
+				continue;
+			rp tmp;
+			if (rp_connect_ipc(&tmp, W.path.c_str()) != 0)
+				continue;
+			if (k & 1)
+				rp_write(&tmp, "GET / HT", 8);
+			else if (k & 2)
+				rp_write(&tmp, "\0SP", 3);
+			vs_settle();
+			rp_close(&tmp);
+			vs_settle();
+			W.junk++;
+			vr_tag("junk_connection_at_listener");
 		} else if (n == "dropnego") { // accept a knocking connection and drop it during the SP handshake
 			if (!W.dial || npeers(W) > 0)
 				continue;
@@ -519,6 +555,8 @@ exec_c12(const vcase *vc)
 		close(W.lfd);
 		unlink(W.path.c_str());
 	}
+	if (W.lipc)
+		unlink(W.path.c_str());
 	h_end();
 	return 0;
 }
@@ -532,8 +570,9 @@ genOp()
 		std::ostringstream o;
 		int k = *gen::weightedElement<int>({{4, 0}, {2, 1}, {1, 2}});
 		int p = *pbt::range<int>(0, 1);
-		int t = *gen::weightedElement<int>({{8, 0}, {12, 1}, {5, 2}, {5, 3}, {4, 4}, {4, 5}, {2, 6}, {2, 7}, {3, 8}, {3, 9}});
+		int t = *gen::weightedElement<int>({{8, 0}, {12, 1}, {5, 2}, {5, 3}, {4, 4}, {4, 5}, {2, 6}, {2, 7}, {3, 8}, {3, 9}, {2, 10}});
 		switch (t) {
+		case 10: o << "junk " << *pbt::range<int>(0, 3); break;
 		case 0: o << "send " << k; break;
 		case 1: o << "wait " << *gen::element(3, 10, 25, 60, 120, 300, 1100); break;
 		case 2: o << "attach " << p; break;
@@ -555,8 +594,11 @@ gen_c12()
 	std::ostringstream t;
 	int mode = *pbt::welem<int>({{4, 0}, {1, 1}, {1, 2}, {1, 3}});
 	t << "cfg " << *pbt::range<int>(1, 1000000) << " " << mode << " " << (mode == 3 ? 20 : 20) << " " << *pbt::range<int>(1, 3) << " " << (mode == 3 ? *gen::element(60, 150, 400) : 600) << " 0\n";
-	if (*pbt::welem<int>({{2, 0}, {1, 1}}))
+	int wk = *pbt::welem<int>({{4, 0}, {2, 1}, {1, 2}});
+	if (wk == 1)
 		t << "dialworld " << *gen::element(10, 20, 60) << "\n";
+	else if (wk == 2)
+		t << "listenipc\n" << (*pbt::range<int>(0, 1) ? "junk 1\n" : "");
 	t << "rtick " << *gen::element(5, 10, 50, 200) << "\n";
 	t << "rtime " << *gen::weightedElement<int>({{3, 20}, {3, 50}, {3, 200}, {2, 1000}, {3, -1}}) << "\n";
 	if (*pbt::welem<int>({{1, 0}, {4, 1}}))
